@@ -26,18 +26,20 @@ type Spec struct {
 	Items  *Spec
 	Props  []*Prop
 	// ReqNoProp: a name listed in required without a property of that name
-	ReqNoProp     bool
-	Default       string // "", "scalar", "slice", "emptyslice", "map"
-	Enum          string // "", "strings", "ints", "numbers", "bools", "mixed", "null"
-	Ref           string // "", "$defs", "definitions": this node lives in a definition and is referenced
-	Desc          bool
-	Title         bool
-	AddProps      string // "", "true", "string", "integer", "number", "boolean", "array", "object", "false"
-	AnyOf         []*Spec
-	AllOf         []*Spec
-	Twice         []string // keywords stated twice for one property by two allOf branches (filled by MergeAllOf)
-	ReqOnly       []string // a constraint-only branch: `required` naming properties (by label) declared in sibling branches
-	ConcreteTitle string   // with Title: a concrete title
+	ReqNoProp      bool
+	Default        string // "", "scalar", "slice", "emptyslice", "map"
+	Enum           string // "", "strings", "ints", "numbers", "bools", "mixed", "null"
+	Ref            string // "", "$defs", "definitions": this node lives in a definition and is referenced
+	Desc           bool
+	Title          bool
+	AddProps       string // "", "true", "string", "integer", "number", "boolean", "array", "object", "false"
+	AnyOf          []*Spec
+	AllOf          []*Spec
+	Twice          []string // keywords stated twice for one property by two allOf branches (filled by MergeAllOf)
+	ReqOnly        []string // a constraint-only branch: `required` naming properties (by label) declared in sibling branches
+	ConcreteTitle  string   // with Title: a concrete title
+	DefsOuterFirst bool     // root only: definitions are visited outermost first (a referring definition before the one it refers to)
+	DefsPreOrder   bool     // root only: definitions are visited in declaration (pre-)order: a referring definition before the ones it refers to, after earlier siblings
 	// filled by Build
 	Atoms   map[string]*absint.Atom
 	DefName *absint.Atom
@@ -46,14 +48,16 @@ type Spec struct {
 
 // Prop is a property of an object Spec.
 type Prop struct {
-	Label    string
-	Spec     *Spec
-	Required bool
-	Name     *absint.Atom // raw name atom (filled by Build)
-	ExtIdent bool         // goJSONSchema.identifier override with a symbolic identifier
-	ExtAtom  *absint.Atom
-	Concrete string // when set, the property name is this concrete text (the real identifier synthesiser runs)
-	SameAs   string // reuse the name atom of the (earlier) property with this label
+	Label        string
+	Spec         *Spec
+	Required     bool
+	Name         *absint.Atom // raw name atom (filled by Build)
+	ExtIdent     bool         // goJSONSchema.identifier override with a symbolic identifier
+	ExtAtom      *absint.Atom
+	Concrete     string // when set, the property name is this concrete text (the real identifier synthesiser runs)
+	SameAs       string // reuse the name atom of the (earlier) property with this label
+	ExtSame      string // with ExtIdent: reuse the override identifier atom of the (earlier) property with this label
+	ExtIsIdentOf string // with ExtIdent: the override is the identifier the synthesiser gives to the (earlier) sibling with this label
 }
 
 func (s *Spec) Has(kw string) bool {
@@ -180,6 +184,8 @@ func (s *Spec) String() string {
 
 // builder accumulates definitions while building.
 type builder struct {
+	preOrder bool
+	exts     map[string]*absint.Atom
 	names    map[string]*absint.Atom
 	g        *gen.G
 	defKeys  []gen.V
@@ -216,6 +222,14 @@ func (b *builder) typeList(s *Spec) gen.V {
 func (b *builder) build(s *Spec, label string) gen.V {
 	g := b.g
 	f := map[string]gen.V{}
+	slot := -1
+	if s.Ref != "" && b.preOrder {
+		s.DefName = g.M.NewAtom("RawStr", "name of definition for "+label)
+		s.DefName.NonEmpty = true
+		b.defKeys = append(b.defKeys, absint.HoleStr(s.DefName))
+		b.defVals = append(b.defVals, nil)
+		slot = len(b.defVals) - 1
+	}
 	if s.Enum == "" || s.Kind != "any" {
 		if tl := b.typeList(s); tl != nil {
 			f["Type"] = tl
@@ -293,8 +307,19 @@ func (b *builder) build(s *Spec, label string) gen.V {
 			keys = append(keys, name)
 			node := b.build(p.Spec, label+p.Label)
 			if p.ExtIdent {
-				p.ExtAtom = g.M.NewAtom("Ident", "goJSONSchema.identifier of "+p.Label)
-				p.ExtAtom.NonEmpty = true
+				switch {
+				case p.ExtSame != "" && b.exts[p.ExtSame] != nil:
+					p.ExtAtom = b.exts[p.ExtSame]
+				case p.ExtIsIdentOf != "" && b.names[p.ExtIsIdentOf] != nil:
+					p.ExtAtom = gen.IdentFor(g.M, b.names[p.ExtIsIdentOf])
+				default:
+					p.ExtAtom = g.M.NewAtom("Ident", "goJSONSchema.identifier of "+p.Label)
+					p.ExtAtom.NonEmpty = true
+				}
+				if b.exts == nil {
+					b.exts = map[string]*absint.Atom{}
+				}
+				b.exts[p.Label] = p.ExtAtom
 				id := g.M.NewPtr(absint.HoleStr(p.ExtAtom), "ext ident")
 				ext := g.Obj("pkg/schemas", "GoJSONSchemaExtension", map[string]gen.V{"Identifier": id})
 				// set on the property node
@@ -402,10 +427,14 @@ func (b *builder) build(s *Spec, label string) gen.V {
 	s.node = node
 	if s.Ref != "" {
 		// move the node into a definition and return a referring node
-		s.DefName = g.M.NewAtom("RawStr", "name of definition for "+label)
-		s.DefName.NonEmpty = true
-		b.defKeys = append(b.defKeys, absint.HoleStr(s.DefName))
-		b.defVals = append(b.defVals, node)
+		if slot >= 0 {
+			b.defVals[slot] = node
+		} else {
+			s.DefName = g.M.NewAtom("RawStr", "name of definition for "+label)
+			s.DefName.NonEmpty = true
+			b.defKeys = append(b.defKeys, absint.HoleStr(s.DefName))
+			b.defVals = append(b.defVals, node)
+		}
 		prefix := "#/$defs/"
 		if s.Ref == "definitions" {
 			prefix = "#/definitions/"
@@ -417,9 +446,15 @@ func (b *builder) build(s *Spec, label string) gen.V {
 
 // Build turns a root Spec into an abstract *schemas.Schema.
 func Build(g *gen.G, root *Spec) gen.V {
-	b := &builder{g: g}
+	b := &builder{g: g, preOrder: root.DefsPreOrder}
 	rootNode := b.build(root, "Root")
 	var defs gen.V
+	if root.DefsOuterFirst {
+		for i, j := 0, len(b.defKeys)-1; i < j; i, j = i+1, j-1 {
+			b.defKeys[i], b.defKeys[j] = b.defKeys[j], b.defKeys[i]
+			b.defVals[i], b.defVals[j] = b.defVals[j], b.defVals[i]
+		}
+	}
 	if len(b.defKeys) > 0 {
 		defs = g.Map(b.defKeys, b.defVals)
 	}
